@@ -32,8 +32,20 @@ class AppBase(BaseException):
     pass
 
 
+class _HiddenError(Exception):
+    """Importable classes whose qualified name has an underscore-prefixed component (private by convention)."""
+
+
+class _errors:  # noqa: N801
+    class Conflict(LookupError):
+        pass
+
+
 class Outer:
     class Inner(ValueError):
+        pass
+
+    class _Throttled(RuntimeError):
         pass
 
     class Deep:
@@ -126,6 +138,7 @@ POOL: Dict[str, Any] = {
     "RaisingInit": RaisingInit, "Local": LocalCls, "LocalPlain": LocalPlainCls, "Dyn": DynCls, "DynBase": DynBase,
     "SecurityError": taskiq.exceptions.SecurityError, "NoResultError": taskiq.exceptions.NoResultError,
     "ValidationErrorLike": json.JSONDecodeError,
+    "Hidden": _HiddenError, "PrivNsConflict": _errors.Conflict, "Throttled": Outer._Throttled,
 }
 FALSY_POOL = {"Falsy": Falsy, "LenZero": LenZero}
 POOL_ALL = dict(POOL)
@@ -657,7 +670,9 @@ NOT_LOADED = ["colorsys", "xml.dom.minidom", "tabnanny", "chunk", "sndhdr", "wav
               # submodules whose parent package is (normally) already loaded
               "encodings.cp1252", "encodings.rot_13", "encodings.koi8_r", "json.tool", "email.mime", "logging.config",
               "multiprocessing.dummy", "ctypes.util", "importlib.simple", "asyncio.__main__", "pydantic.v1.tools",
-              "taskiq.cli.watcher", "taskiq.serializers.msgpack_serializer"]
+              "taskiq.cli.watcher", "taskiq.serializers.msgpack_serializer",
+              # optional sub-packages of taskiq itself that `import taskiq` does not load
+              "taskiq.api", "taskiq.cli", "taskiq.schedule_sources", "taskiq.cli.worker.run"]
 
 CATALOGUE: List[Tuple[Optional[str], str]] = [
     ("os", "system"), ("os", "popen"), ("os", "path.exists"), ("os", "environ"), ("subprocess", "call"), ("subprocess", "Popen"),
@@ -690,6 +705,9 @@ CATALOGUE: List[Tuple[Optional[str], str]] = [
     ("encodings.cp1252", "Codec"), ("encodings.rot_13", "rot13"), ("encodings.koi8_r", "getregentry"), ("json.tool", "main"),
     ("email.mime", "text"), ("logging.config", "fileConfig"), ("multiprocessing.dummy", "Pool"), ("ctypes.util", "find_library"),
     ("importlib.simple", "SimpleReader"), ("asyncio.__main__", "main"), ("taskiq.cli.watcher", "FileWatcher"),
+    # the claimed module is loaded, the dotted *type name* starts with a sub-package that is not
+    ("taskiq", "api.run_receiver_task"), ("taskiq", "cli.worker.run.start_listen"), ("taskiq", "schedule_sources.LabelScheduleSource"),
+    ("taskiq", "api"), ("taskiq", "cli.common_args.LogLevel"), ("json", "tool.main"), ("email", "mime.text.MIMEText"),
 ]
 
 class _Validating(Exception):
@@ -725,9 +743,20 @@ def resolve(module: Optional[str], name: str) -> Tuple[bool, Any]:
     obj: Any = sys.modules.get(module)
     if obj is None:
         return False, None
+    import types
+
     try:
         for part in name.split("."):
-            obj = getattr(obj, part)
+            if isinstance(obj, types.ModuleType):
+                # no module-level __getattr__ (PEP 562): the monitor itself must not trigger a lazy import
+                if part in vars(obj):
+                    obj = vars(obj)[part]
+                elif hasattr(type(obj), part):
+                    obj = getattr(obj, part)  # an attribute of the module type (__class__, __dict__, ...)
+                else:
+                    return False, None
+            else:
+                obj = getattr(obj, part)
     except AttributeError:
         return False, None
     return True, obj
